@@ -374,6 +374,8 @@ def conc(data, kind=None, shape=None):
             return [rec(x) if isinstance(x, list) else aa[0] for x in d]
         o.attrs['_data'] = rec(o.attrs['_data']) if isinstance(o.attrs['_data'], list) else aa[0]
     a.methods['fill'] = fill
+    a.methods['all'] = lambda itp, o, aa, k: all(bool(x) for x in _flat(o.attrs['_data'])) if not aa and not k and o.attrs['shape'] else Sym('call', 'all', (o,) + tuple(aa), dict(k))
+    a.methods['any'] = lambda itp, o, aa, k: any(bool(x) for x in _flat(o.attrs['_data'])) if not aa and not k and o.attrs['shape'] else Sym('call', 'any', (o,) + tuple(aa), dict(k))
 
     def getattr_hook(itp, o, attr):
         if attr == 'T':
@@ -591,6 +593,15 @@ def mk_np():
             return v
         return Sym('call', 'np.asarray', tuple(a), dict(k))
     np.methods['asarray'] = asarray
+
+    def isin(itp, o, a, k):
+        x, y = as_conc(a[0]), as_conc(a[1]) if len(a) > 1 else None
+        if x is None or y is None or x.attrs['ndim'] != 1 or y.attrs['ndim'] != 1 or any(kk != 'invert' for kk in k):
+            return Sym('call', 'np.isin', tuple(a), dict(k))
+        inv = bool(k.get('invert', False))
+        return conc([(v in y.attrs['_data']) != inv for v in x.attrs['_data']], 'b')
+    np.methods['isin'] = isin
+    np.methods['in1d'] = isin
     np.methods['prod'] = lambda itp, o, a, k: _prod(itp.iterate(a[0])) if isinstance(a[0], (list, tuple)) and all(isinstance(y, int) for y in a[0]) else Sym('call', 'np.prod', tuple(a), dict(k))
     return np
 
@@ -1735,6 +1746,68 @@ def sc_aligned_axes(P):
     return out
 
 
+def relabelable(P, name, spec, labels=None):
+    """an array whose reindex_axis(labels, axis=name, **options) gives a new array carrying `labels` on that dimension; which dimensions were re-indexed onto what, and
+    with which options, is recorded in the values token (order-independent: re-indexing along different dimensions commutes)"""
+    arr = arr_of(P, name, spec, labels)
+
+    def reindex_axis(itp, o, a, k):
+        k = dict(k)
+        vals = a[0] if a else k.pop('values', None)
+        axis = a[1] if len(a) > 1 else k.pop('axis', 0)
+        if isinstance(vals, Obj) and 'Axis' in vals.types:
+            axis, vals = vals.attrs['name'], vals.attrs['values']
+        old = itp.iterate(o.attrs['axes'])
+        names = [x.attrs['name'] for x in old]
+        if isinstance(axis, int) and not isinstance(axis, bool) and -len(names) <= axis < len(names):
+            axis = names[axis]
+        if axis not in names:
+            raise Raised('ValueError')
+        if render(vals) == render(old[names.index(axis)].attrs['values']):
+            return o            # onto the labels it already has: the same array (whether the function takes a short-cut for this case is not observable)
+        opts = ', '.join('%s=%s' % (kk, render(vv)) for kk, vv in sorted(k.items()))
+        new = relabelable(P, o.name, [(x.attrs['name'], x.attrs['size']) for x in old])
+        new.attrs['axes'] = mk_axes([mk_axis(axis, Sym('call', 'len', (vals,), {}), vals, x.attrs.get('attrs')) if x.attrs['name'] == axis else x for x in old])
+        done = dict(o.attrs.get('_reindexed', {}))
+        done[axis] = '%s%s' % (render(vals), (' [%s]' % opts) if opts else '')
+        new.attrs['_reindexed'] = done
+        new.attrs['_base'] = o.attrs.get('_base', o.attrs['values'])
+        new.attrs['values'] = Sym('call', 'REINDEXED', (new.attrs['_base'],) + tuple(Sym('tok', '%s->%s' % (d, v)) for d, v in sorted(done.items())), {})
+        new.attrs['attrs'] = o.attrs['attrs']
+        return new
+    arr.methods['reindex_axis'] = reindex_axis
+    return arr
+
+
+def sc_reindex_like(P):
+    out = []
+    xyz = [('x', 2), ('y', 3), ('z', 4)]
+    T_ = lambda spec: arr_of(P, 'T', spec, dict((d, 'T_' + d) for d, _ in spec))
+
+    def case(label, mk_self, mk_other, **kw):
+        out.append((label, lambda: ([mk_self(), mk_other()], dict(kw), {'overrides': std_overrides(P), 'oracle': label_oracle})))
+    S = lambda: relabelable(P, 'A', xyz)
+    case('template with the same dimensions', S, lambda: T_(xyz))
+    case('template with the dimensions in reverse order', S, lambda: T_(xyz[::-1]))
+    case('template with the dimensions rotated', S, lambda: T_(xyz[1:] + xyz[:1]))
+    case('template with one shared dimension', S, lambda: T_([('y', 3)]))
+    case('template with a dimension the array lacks', S, lambda: T_([('w', 5), ('z', 4), ('x', 2)]))
+    case('template without shared dimensions', S, lambda: T_([('w', 5)]))
+    case('template given as an Axes object', S, lambda: T_(xyz[::-1]).attrs['axes'])
+    case('options are handed on', S, lambda: T_(xyz[::-1]), fill_value=0, method='left')
+    case('a 0-d array', lambda: relabelable(P, 'A', []), lambda: T_(xyz))
+
+    def concrete(name, labels, maker):
+        a = maker(P, name, [('x', len(labels))])
+        a.attrs['axes'].attrs['_list'][0].attrs['values'] = conc(list(labels))
+        return a
+    case('template with the same labels in another order', lambda: concrete('A', [1, 2, 3], relabelable), lambda: concrete('T', [3, 1, 2], arr_of))
+    case('template with the same labels in reverse order', lambda: concrete('A', [1, 2, 3], relabelable), lambda: concrete('T', [3, 2, 1], arr_of))
+    case('template with the same labels in the same order', lambda: concrete('A', [1, 2, 3], relabelable), lambda: concrete('T', [1, 2, 3], arr_of))
+    case('template that is neither an array nor Axes (invalid)', S, lambda: 3)
+    return out
+
+
 def sc_axes_from(P):
     """Axes.from_shape / from_arrays / from_dict called directly"""
     out = []
@@ -1766,6 +1839,7 @@ SCENARIOS = {
     'dimarray.core.axes.MultiAxis.size': (('C11',), sc_multiaxis(None, 'size')),
     'dimarray.core.align.align': ((), sc_align),         # the decision procedure of c06.rule_align (C04-R7, C06-R3, C12-R7, C13-R7)
     'dimarray.core.align._get_aligned_axes': (('C06', 'C12'), sc_aligned_axes),
+    'dimarray.core.align.reindex_like': ((), sc_reindex_like),          # the decision procedure of C07-R4
     'dimarray.core.align.stack': (('C12', 'C05'), sc_stack),
     'dimarray.core.align.concatenate': (('C12',), sc_concatenate),
     'dimarray.core.reshape.transpose': (('C10', 'C04', 'C12'), sc_transpose),
